@@ -212,7 +212,12 @@ func register() {
 				defer wg.Done()
 				for k := 0; k < iters; k++ {
 					want := g*1000 + k
-					body, _ := json.Marshal(map[string]string{"SourceCode": "令A = " + itoa(want) + "\n输出A"})
+					// every other request carries its number in an input-variable text (read through the same stream code as files)
+					bodyMap := map[string]string{"SourceCode": "令A = " + itoa(want) + "\n输出A"}
+					if k%2 == 1 {
+						bodyMap = map[string]string{"VarInput": "注：请求" + itoa(want) + "的输入\nV = " + itoa(want), "SourceCode": "输入V\n输出V"}
+					}
+					body, _ := json.Marshal(bodyMap)
 					req := httptest.NewRequest(http.MethodPost, "/", bytes.NewReader(body))
 					rec := httptest.NewRecorder()
 					h.ServeHTTP(rec, req)
